@@ -232,18 +232,19 @@ def bus_isolation(chk, rng, thorough):
             h = net.add_client()
             net.run()
         bp = net.clients[h][2]
-        try:
-            bp.dataReceived(raw)
-        except Exception:            # Twisted drops the connection of the peer that sent it
+        # everything runs under the call counter: a decoder that loops must end as a verdict, not hang the check
+        out, calls, r = counted(lambda: bp.dataReceived(raw), 40 * bound(len(raw), 64))
+        if out != 'value':           # Twisted drops the connection of the peer that sent it
             net.clients[h][3].loseConnection()
             bp.connectionLost(fakes.conn_lost())
             h = None
-        try:
-            net.run()
-            ok = probe(i)
+        out2, calls2, ok = counted(lambda: (net.run(), probe(i))[1], 2000000)
+        if out2 != 'value':
+            ok, how = False, 'delivery %s' % out2
+        else:
             how = 'probe delivered' if ok else 'probe lost'
-        except Exception as ex:
-            ok, how = False, 'raised ' + type(ex).__name__
+        if out == 'budget':
+            ok, how = False, 'the bus spent more than %d calls on %d hostile bytes' % (40 * bound(len(raw), 64), len(raw))
         recs.append({'before': {'outcome': 'value', 'digest': 'probe delivered'},
                      'after': {'outcome': 'value' if ok else 'exception', 'digest': how}})
         names.append(name)
@@ -297,11 +298,10 @@ def run(tier, seed):
 
     def decode_valid(raw):
         import hashlib
-        try:
-            m = message.parseMessage(raw, [])
+        out, calls, m = counted(lambda: message.parseMessage(raw, []), 4 * bound(len(raw), 64))
+        if out == 'value':
             return {'outcome': 'value', 'digest': hashlib.sha1(repr((m._messageType, m.serial, m.signature, m.body)).encode()).hexdigest()[:12]}
-        except Exception as ex:
-            return {'outcome': 'exception', 'digest': type(ex).__name__}
+        return {'outcome': 'exception' if out == 'exception' else out, 'digest': type(m).__name__}
     before = [decode_valid(raw) for raw in valid]
     # ---- 1. design level: Bounded holds; the old design (ZeroOK) violates it
     confs = [(5, '0, 1, 4, 8, 255'), (9, '0, 1, 255')] if thorough else [(4, '0, 1, 4, 8, 255'), (9, '0, 1')]
